@@ -15,6 +15,15 @@ def H4(b):
     return hashlib.sha256(hashlib.sha256(b).digest()).digest()[:4]
 
 
+def called(fn):
+    """run fn for its side effects; its value / exception is not an observable of the property"""
+    try:
+        fn()
+    except Exception:  # noqa: BLE001
+        pass
+    return 'ok'
+
+
 def tx(s):
     """text argument: hex of UTF-8"""
     return s.encode('utf-8').hex()
@@ -146,9 +155,10 @@ class C10(Prop):
                     yield mk('c10.str', v, p.hex(), tag='versions')
             yield mk('c10.frombytes', v, bytes([v]).hex() * 3, tag='versions')
         for v in (-1, -256, 256, 257, 1000, 1 << 32, -(1 << 31)) + tuple(x for x in self.pool if not 0 <= x <= 255):
-            yield mk('c10.str', v, 'abcd', tag='version-range')
-            yield mk('c10.frombytes', v, 'abcd', tag='version-range')
-            yield mk('c10.roundtrip', v, '', tag='version-range')
+            # outside the quantifier ("all version bytes 0..255"): kept to exercise the model's ValueError branch
+            yield mk('c10.str', v, 'abcd', tag='version-range', ood=True)
+            yield mk('c10.frombytes', v, 'abcd', tag='version-range', ood=True)
+            yield mk('c10.roundtrip', v, '', tag='version-range', ood=True)
 
     def gen_short(self, rng, big):
         """decoded strings of 0..6 bytes whose trailing bytes are a correct checksum of what precedes them,
@@ -190,8 +200,8 @@ class C10(Prop):
                      'd:' + tx(s), 'd:' + tx(last), 'd:' + tx(first), 'd:' + tx(s + '1'), 'd:' + tx('1' + s), 'd:' + tx(bad_mid),
                      'd:' + tx(bad_end), 'd:' + tx(''), 'd:' + tx(s2),
                      'c:' + tx(s), 'c:' + tx(last), 'c:' + tx(first), 'c:' + tx(bad_mid), 'c:' + tx(s2), 'c:' + tx('3y6uvf'), 'c:' + tx(''),
-                     's:%d:%s' % (vs[0], vs[1:].hex()), 's:%d:%s' % (vs[0] ^ 1, vs[1:].hex()), 's:256:' + vs[1:].hex(),
-                     's:%d:%s' % (vs[0], (vs[1:] + b'\x00').hex()), 'f:-1:00', 'f:%d:%s' % (vs[0], vs[1:].hex())]
+                     's:%d:%s' % (vs[0], vs[1:].hex()), 's:%d:%s' % (vs[0] ^ 1, vs[1:].hex()),
+                     's:%d:%s' % (vs[0], (vs[1:] + b'\x00').hex()), 'f:%d:%s' % (vs[0], vs[1:].hex())]
             for a in steps:
                 for b in steps:
                     yield mk('c10.seq', *self.FLUSH, a, b, tag='hist-pair')
@@ -293,9 +303,12 @@ class C10(Prop):
             def f():
                 d = (B.CBase58Data(bytes.fromhex(a[1]).decode('utf-8')) if a[0] == 'new'
                      else B.CBase58Data.from_bytes(bytes.fromhex(a[2]), int(a[1])))
+                twin = B.CBase58Data.from_bytes(bytes(d), d.nVersion)
                 obs = {'s': lambda: str(d), 'b': lambda: bytes(d).hex(), 't': lambda: d.to_bytes().hex(),
-                       'v': lambda: str(d.nVersion), 'r': lambda: repr(d), 'e': lambda: str(d == bytes(d)),
-                       'h': lambda: str(hash(d) == hash(bytes(d)))}
+                       'v': lambda: str(d.nVersion),
+                       # events only: the property does not constrain repr / == / hash, but they may leave state behind
+                       'r': lambda: called(lambda: repr(d)), 'e': lambda: called(lambda: d == twin),
+                       'h': lambda: called(lambda: hash(d))}
                 return '/'.join(guarded(obs[o]) for o in a[3])
             return guarded(f)
         if op == 'c10.roundtrip':
